@@ -125,4 +125,191 @@ theorem msLoop_sim (c : Ctx) (sop : Nat) (script' code' : Bytes) (st : St) (hidx
         · have hz : sigs.toNat - 1 = 0 := by omega
           simp only [hpos, dif_neg, not_false_eq_true, hz, List.take_zero, Ref.multiSigLoop, if_true]
 
+theorem msTail_eq (fl : Flags) (sop : Nat) (success : Bool) (s al : List Bytes) (vf : List Bool) (pb n' m : Nat)
+    (dummy : Bytes) (rest : List Bytes) (hd : s.drop m = dummy :: rest) (hm : m ≤ s.length) :
+    (do
+      let stack ← popN m s
+      let st : St := ⟨stack, al, vf, pb, n'⟩
+      nullDummyCheck fl sop st
+      let (_, stack) ← pyIdx (pop? stack)
+      let st : St := { st with stack := stack }
+      if sop = 0xae then
+        .ok { st with stack := (if success then [1] else []) :: stack }
+      else .ok st : M St) =
+    if fl.nullDummy = true ∧ dummy ≠ [] then raiseNamed sop ⟨dummy :: rest, al, vf, pb, n'⟩
+    else if sop = 0xae then .ok ⟨(if success then [1] else []) :: rest, al, vf, pb, n'⟩
+    else .ok ⟨rest, al, vf, pb, n'⟩ := by
+  rw [popN_eq m s hm, hd]
+  simp only [bind, Except.bind, nullDummyCheck, getTop?_1, pyIdx, pop?_cons, List.length_cons]
+  by_cases hnd : fl.nullDummy = true
+  · by_cases hde : dummy = []
+    · simp [hnd, hde]
+    · simp [hnd, hde]
+  · simp [hnd]
+
+theorem msDropSigs_invalid (st : St) (isig : Int) (n k : Nat) (m : Bytes)
+    (hel : ∀ x ∈ st.stack, x.length < 2 ^ 32) (htail : (rawIter m).2.isSome) (h1 : 1 ≤ isig + k)
+    (h2 : isig + k + (n + 1) ≤ st.stack.length + 1) :
+    msDropSigs st isig (n + 1) k m = .error (.invalid st.cap) := by
+  have hlt : (isig + k - 1).toNat < st.stack.length := by omega
+  have hget := getTop?_getElem st.stack (isig + k) h1 (by omega)
+  have hxl : (st.stack[(isig + k - 1).toNat]).length < 2 ^ 32 := hel _ (List.getElem_mem hlt)
+  have hfad := findAndDelete_eq st.cap m (Ref.pushEnc st.stack[(isig + k - 1).toNat]) (pushEnc_pat _ hxl)
+  simp only [htail, if_true] at hfad
+  simp only [msDropSigs, hget, pyIdx, encodeOpPushdata_eq _ hxl, hfad, bind, Except.bind]
+
+theorem multisig_sim (c : Ctx) (fl : Flags) (script code : Bytes) (st : St) (sop : Nat)
+    (hs : sop = 0xae ∨ sop = 0xaf) (hidx : 0 ≤ c.inIdx) (hcs : CodesepInsensitive c.env)
+    (hel : ∀ x ∈ st.stack, x.length < 2 ^ 32) (hcode : CodeRel script st.pbegin code)
+    (hnop : st.nOpCount ≤ MAX_OPS_PER_SCRIPT) :
+    SimT ((rawIter (script.drop st.pbegin)).2.isSome) code st
+      (checkMultiSig c fl sop (script.drop st.pbegin) st)
+      (Ref.opCheckMultiSig c.env fl (decide (sop = 0xaf)) (toRef st code)) := by
+  obtain ⟨s, al, vf, pb, n⟩ := st
+  dsimp only at hel hcode hnop ⊢
+  unfold checkMultiSig Ref.opCheckMultiSig
+  dsimp only [toRef]
+  cases s with
+  | nil => simp
+  | cons kv s1 =>
+    have h0 : ¬ ((kv :: s1).length < 1) := by simp
+    rw [if_neg h0]
+    simp only [getTop?_1, pyIdx, bind, Except.bind]
+    have hck := castToBigNum_eq kv ⟨kv :: s1, al, vf, pb, n⟩
+    cases hsk : Ref.scriptNum? kv with
+    | none =>
+      simp only [hsk] at hck
+      obtain ⟨e, he⟩ := hck
+      simp only [he]
+      cases e <;> simp [SimT]
+    | some keys =>
+      simp only [hsk] at hck
+      simp only [hck]
+      by_cases hk : keys < 0 ∨ keys > 20
+      · rw [if_pos hk]
+        have hk' : keys < 0 ∨ keys > (MAX_PUBKEYS_PER_MULTISIG : Int) := by simpa [MAX_PUBKEYS_PER_MULTISIG] using hk
+        simp [hk']
+      rw [if_neg hk]
+      have hk' : ¬ (keys < 0 ∨ keys > (MAX_PUBKEYS_PER_MULTISIG : Int)) := by simpa [MAX_PUBKEYS_PER_MULTISIG] using hk
+      simp only [hk', if_false]
+      by_cases hop : n + keys.toNat > MAX_OPS_PER_SCRIPT
+      · rw [if_pos hop]; simp [hop, SimT]
+      rw [if_neg hop]
+      simp only [hop, if_false]
+      by_cases hlen : ((kv :: s1).length : Int) < 2 + keys
+      · rw [if_pos hlen]
+        have : s1.length < keys.toNat + 1 := by simp only [List.length_cons] at hlen; omega
+        simp [this]
+      rw [if_neg hlen]
+      have hl1 : ¬ s1.length < keys.toNat + 1 := by simp only [List.length_cons] at hlen; omega
+      simp only [hl1, if_false]
+      -- the signature count
+      have hkn : keys.toNat < s1.length := by omega
+      have hdrop : s1.drop keys.toNat = s1[keys.toNat] :: s1.drop (keys.toNat + 1) :=
+        List.drop_eq_getElem_cons hkn
+      have hidx2 : (2 + keys - 1).toNat = keys.toNat + 1 := by omega
+      have hgt : getTop? (kv :: s1) (2 + keys) = some s1[keys.toNat] := by
+        have h1 : (1 : Int) ≤ 2 + keys := by omega
+        simp only [getTop?, h1, if_true, hidx2, List.getElem?_cons_succ, List.getElem?_eq_getElem hkn]
+      rw [hdrop]
+      simp only [hgt]
+      have hcs2 := castToBigNum_eq s1[keys.toNat] ⟨kv :: s1, al, vf, pb, n + keys.toNat⟩
+      cases hss : Ref.scriptNum? s1[keys.toNat] with
+      | none =>
+        simp only [hss] at hcs2
+        obtain ⟨e, he⟩ := hcs2
+        simp only [he]
+        cases e <;> simp [SimT]
+      | some sigs =>
+        simp only [hss] at hcs2
+        simp only [hcs2]
+        by_cases hsr : sigs < 0 ∨ sigs > keys
+        · rw [if_pos hsr]; simp [hsr]
+        rw [if_neg hsr]
+        simp only [hsr, if_false]
+        have hs2len : (s1.drop (keys.toNat + 1)).length = s1.length - (keys.toNat + 1) := List.length_drop ..
+        by_cases hl1' : ((kv :: s1).length : Int) < 2 + keys + 1 + sigs - 1
+        · rw [if_pos hl1']
+          have : s1.length - (keys.toNat + 1) < sigs.toNat + 1 := by
+            simp only [List.length_cons] at hl1'; omega
+          simp [this]
+        rw [if_neg hl1']
+        by_cases hl2 : ((kv :: s1).length : Int) < 2 + keys + 1 + sigs
+        · rw [if_pos hl2]
+          have : s1.length - (keys.toNat + 1) < sigs.toNat + 1 := by
+            simp only [List.length_cons] at hl2; omega
+          simp [this]
+        rw [if_neg hl2]
+        have hl3 : ¬ (s1.drop (keys.toNat + 1)).length < sigs.toNat + 1 := by
+          rw [hs2len]; simp only [List.length_cons] at hl2; omega
+        simp only [hl3, if_false]
+        -- positions
+        have hL : (kv :: s1).length = s1.length + 1 := rfl
+        have hm : (2 + keys + 1 + sigs - 1).toNat = keys.toNat + 1 + sigs.toNat + 1 := by omega
+        have hdd : (kv :: s1).drop (2 + keys + 1 + sigs - 1).toNat = (s1.drop (keys.toNat + 1)).drop sigs.toNat := by
+          rw [hm, List.drop_drop]
+          have : keys.toNat + 1 + sigs.toNat + 1 = (keys.toNat + 1 + sigs.toNat) + 1 := by omega
+          rw [this, List.drop_succ_cons]
+        have hdne : (s1.drop (keys.toNat + 1)).drop sigs.toNat ≠ [] := by
+          intro h
+          have := congrArg List.length h
+          simp only [List.length_drop, List.length_nil] at this
+          simp only [List.length_cons] at hl2; omega
+        cases hdr : (s1.drop (keys.toNat + 1)).drop sigs.toNat with
+        | nil => exact absurd hdr hdne
+        | cons dummy rest =>
+          simp only []
+          have hpop : popN (2 + keys + 1 + sigs - 1).toNat (kv :: s1) = .ok (dummy :: rest) := by
+            rw [popN_eq _ _ (by simp only [List.length_cons] at hl2 ⊢; omega), hdd, hdr]
+          simp only [hpop, nullDummyCheck, List.length_cons, getTop?_1, pyIdx, pop?_cons, bind, Except.bind]
+          have hnz : rest.length + 1 ≠ 0 := by omega
+          simp only [hnz, ne_eq, not_false_eq_true, true_and]
+          by_cases hpos : sigs > 0
+          · -- at least one signature
+            have hst : (⟨kv :: s1, al, vf, pb, n + keys.toNat⟩ : St).stack = kv :: s1 := rfl
+            cases htl : (rawIter (script.drop pb)).2 with
+            | some e =>
+              obtain ⟨k', hk'⟩ : ∃ k', sigs.toNat = k' + 1 := ⟨sigs.toNat - 1, by omega⟩
+              have hinv := msDropSigs_invalid ⟨kv :: s1, al, vf, pb, n + keys.toNat⟩ (2 + keys + 1) k' 0
+                (script.drop pb) hel (by simp [htl]) (by omega)
+                (by simp only [hst, List.length_cons] at hl2 ⊢; omega)
+              rw [hk', hinv]
+              simp [SimT]
+            | none =>
+              have hsub : SubRel (script.drop pb) code := by
+                rcases hcode with ⟨rfl, rfl⟩ | h
+                · left; simp
+                · right; exact h
+              obtain ⟨m', hm1, hm2, hm3⟩ := msDropSigs_sim ⟨kv :: s1, al, vf, pb, n + keys.toNat⟩ (2 + keys + 1) hel
+                sigs.toNat 0 (script.drop pb) code hsub htl (by omega)
+                (by simp only [hst, List.length_cons] at hl2 ⊢; omega)
+              have hloop := msLoop_sim c sop m' _ ⟨kv :: s1, al, vf, pb, n + keys.toNat⟩ hidx hcs hm3 hm2 keys.toNat
+                (2 + keys + 1) sigs 2 keys rfl (by omega) (by omega) (by omega) (by omega)
+                (by simp only [hst, List.length_cons] at hl2 ⊢; omega)
+                (by simp only [hst, List.length_cons] at hlen ⊢; omega)
+              have e1 : (2 + keys + 1 + ((0 : Nat) : Int) - 1).toNat = keys.toNat + 2 := by omega
+              have e2 : (2 + keys + 1 - 1).toNat = keys.toNat + 2 := by omega
+              have e3 : ((2 : Int) - 1).toNat = 1 := by omega
+              have e4 : (kv :: s1).drop (keys.toNat + 2) = s1.drop (keys.toNat + 1) := by
+                rw [show keys.toNat + 2 = (keys.toNat + 1) + 1 by omega, List.drop_succ_cons]
+              simp only [hst, e1, e2, e3, e4, List.drop_succ_cons, List.drop_zero] at hm3 hloop
+              rw [hm1]
+              simp only [hpos, if_true, hloop]
+              have hnop' : n + keys.toNat ≤ MAX_OPS_PER_SCRIPT := by omega
+              cases hres : Ref.multiSigLoop
+                  (fun sig key => Ref.checkSig c.env sig key
+                    (List.foldl (fun sc sig => Ref.findAndDelete sc (Ref.pushEnc sig)) code
+                      (List.take sigs.toNat (List.drop (keys.toNat + 1) s1))))
+                  (List.take sigs.toNat (List.drop (keys.toNat + 1) s1)) (List.take keys.toNat s1) <;>
+                by_cases hnd : fl.nullDummy = true <;> by_cases hde : dummy = [] <;> rcases hs with rfl | rfl <;>
+                simp [hnd, hde, SimT, toRef, Ref.boolVch, Ref.vchTrue, Ref.vchFalse, hnop'] <;>
+                (try (unfold namedErr; split <;> trivial))
+          · -- no signatures: nothing is dropped, nothing is checked
+            have hz : sigs.toNat = 0 := by omega
+            simp only [hz, msDropSigs, hpos, if_false, List.take_zero, List.foldl_nil, Ref.multiSigLoop]
+            have hnop' : n + keys.toNat ≤ MAX_OPS_PER_SCRIPT := by omega
+            by_cases hnd : fl.nullDummy = true <;> by_cases hde : dummy = [] <;> rcases hs with rfl | rfl <;>
+              simp [hnd, hde, SimT, toRef, Ref.boolVch, Ref.vchTrue, hnop'] <;>
+              (try (unfold namedErr; split <;> trivial))
+
 end BtcVerif.Model.ScriptEval
